@@ -23,35 +23,41 @@ def orderOk (t : Track) : Ob → Bool
 def orderStep (pre : Snap) (t : Track) (s : Step) : Bool :=
   checkObs orderOk s.ev (isRetryStep t s.ev) (trackEv pre t s.ev) s.obs
 
-/-- One batch in flight: a produce request that is not a retry carries only sends that were never in
-    a request, and is made only when every send of every earlier request has fired (the earlier
-    batches are resolved) - given the client accounted for every payload (C07).  A retry carries only
-    sends of the request it retries. -/
+/-- One batch in flight: a produce request that is not a retry is made only when NO PRODUCE REQUEST IS UNANSWERED
+    (none was made yet, or the client has answered the last one - in this very step at the latest); it carries only
+    sends that were never in a request, and is made only when every send of every earlier request has fired (the
+    earlier batches are resolved) - given the client accounted for every payload (C07).  A retry carries only sends
+    of the request it retries. -/
 def oneBatchOk (retry : Bool) (t : Track) : Ob → Bool
   | .produce _ ps =>
     if retry then
       match t.cur with
-      | some (_, prev) => !t.acct || (payloadSids ps).all (· ∈ payloadSids prev)
+      | some (_, prev) => (payloadSids ps).all (· ∈ payloadSids prev)
       | none => false
     else
+      (t.cur.isNone || t.curRes.isSome) &&
       (payloadSids ps).all (· ∉ t.produced) && (!t.acct || t.produced.all (· ∈ t.fired))
   | _ => true
 
 def oneBatchStep (pre : Snap) (t : Track) (s : Step) : Bool :=
   checkObs (oneBatchOk (isRetryStep t s.ev)) s.ev (isRetryStep t s.ev) (trackEv pre t s.ev) s.obs
 
-/-- Retry only what failed: a retry sends exactly the payloads the previous attempt's result reported
-    as failed (failed payloads, then error-coded responses; the whole unacknowledged rest for a total
-    failure), unchanged, and never a payload acknowledged earlier in the batch. -/
+/-- Retry only what failed: a retry sends exactly the payloads the previous attempt's result reported as failed
+    (failed payloads, then error-coded responses, in that order; for a total failure - nothing was sent - the
+    payloads of THAT request, all of them and nothing else), each unchanged, and never a payload acknowledged
+    earlier in the batch. -/
 def retryOk (retry : Bool) (t : Track) : Ob → Bool
   | .produce _ ps =>
     if retry then
-      match t.curRes with
-      | some res =>
-        ps.map (·.tp) == failedTps (t.batchTps.filter (· ∉ t.acked)) res &&
+      match t.curRes, t.cur with
+      | some res, some (_, prev) =>
+        (match res with
+         | .err _ => decide (ps.map (·.tp)).Nodup && (ps.map (·.tp)).all (· ∈ prev.map (·.tp)) &&
+                     (prev.map (·.tp)).all (· ∈ ps.map (·.tp))
+         | _ => ps.map (·.tp) == failedTps [] res) &&
         ps.all (fun p => p.tp ∉ t.acked && (t.lastP.filter (·.1 == p.tp)).all (·.2 == p.sids) &&
                          t.lastP.any (·.1 == p.tp))
-      | none => false
+      | _, _ => false
     else true
   | _ => true
 
@@ -82,7 +88,20 @@ def geometricOk (cfg : Cfg) (tol : Rat) (t : Track) : Ob → Bool
 def geometricStep (cfg : Cfg) (tol : Rat) (pre : Snap) (t : Track) (s : Step) : Bool :=
   checkObs (geometricOk cfg tol) s.ev (isRetryStep t s.ev) (trackEv pre t s.ev) s.obs
 
+/-- Acknowledged ones are reported at once: in the step that takes the client's answer to the request in flight,
+    every send riding on a payload the answer acknowledges (error 0) that was still outstanding fires `ok` with
+    that very response; and when the answer ends the batch for good (attempts used up, not stopped) every send
+    still outstanding on a payload it reports failed fails with THAT error. -/
+def reportedStep (cfg : Cfg) (pre : Snap) (t : Track) (s : Step) : Bool :=
+  match (if effective t s.ev then completionOf s.ev else none), t.cur, t.curRes with
+  | some r, some (_, ps), none =>
+    ((respsOf r).filter (·.error = 0)).all (fun resp =>
+      (ps.filter (·.tp = resp.tp)).all (fun p => p.sids.all (fun sid =>
+        !pre.outstanding.contains sid || s.obs.contains (.fire sid (.ok resp)))))
+  | _, _, _ => true
+
 def order (cfg : Cfg) (tr : List Step) : Bool := checkTrace cfg orderStep tr
+def reported (cfg : Cfg) (tr : List Step) : Bool := checkTrace cfg (reportedStep cfg) tr
 def oneBatch (cfg : Cfg) (tr : List Step) : Bool := checkTrace cfg oneBatchStep tr
 def retryOnlyFailed (cfg : Cfg) (tr : List Step) : Bool := checkTrace cfg retryStep tr
 def attemptBound (cfg : Cfg) (tr : List Step) : Bool := checkTrace cfg (attemptStep cfg) tr
